@@ -17,15 +17,18 @@
    equal final states, answer lists that agree up to the cursor an empty answer records);
    C05_out_slicing_fast / _fast_seq (quality 0/1, no metadata calls: same bytes, logically equal
    final states, answer lists that agree up to the recorded in-place flag);
-   C05_out_slicing_partial = the corrected full statement C05_out_slicing_q_stmt restricted to
-   "main path, or no metadata call" (missing: metadata calls on a quality-0/1 encoder).
+   C05_out_slicing_q : C05_out_slicing_q_stmt = the corrected full statement: both paths, all four
+   operations (metadata on a quality-0/1 encoder included), any sequence of logical calls.
+   Not covered: schedules that interleave take_output with stream calls (C05_push_take relates
+   the two step by step), and non-quiescent drivers, for which the request sequence does depend
+   on the schedule (C05_nonquiescent_requests_differ).
    On every run the property is additionally decided on
    the real encoder by differential runs (output capacities 1, 2, mixed with 0, ample,
    take-output, four allocators / ABIs, two build profiles, wrappers) and the model is checked
    to reproduce the implementation's back-end request sequence under three output slicings. *)
 From Coq Require Import NArith ZArith List Bool Lia.
 From V Require Import lib.Words model.Stream proofs.Stream_proofs proofs.NoPanic_proofs
-                      proofs.Slicing_proofs proofs.Slicing_fast proofs.Slicing_meta.
+                      proofs.Slicing_proofs proofs.Slicing_fast proofs.Slicing_meta proofs.Slicing_fastmeta.
 Import ListNotations.
 Open Scope N_scope.
 
@@ -207,27 +210,28 @@ Proof. exact leqB_fields. Qed.
 Print Assumptions C05_leqB_fields.
 
 (* The corrected full statement: any sequence of logical calls (metadata included), either
-   path, logically equal start states ([leqU] = leq on the quality-0/1 path, leqB otherwise). *)
+   path, logically equal start states ([leqU] = leq on the quality-0/1 path, leqB otherwise).
+   [slicing_pre_full s] = initialized, inv, all_ok2 (oracle s), meta_ok, and on the quality-0/1
+   path input_pos = last_flush_pos (menc s = false: true of every state such an encoder
+   reaches, since that path never moves either counter); all of it is re-established. *)
 Definition C05_out_slicing_q_stmt : Prop :=
   forall calls s t capss capss' acc out out' s1 t1,
-  slicing_pre s -> slicing_pre t -> leqU s t ->
+  slicing_pre_full s -> slicing_pre_full t -> leqU s t ->
   Forall (fun c => fst (fst c) = OpMeta -> snd (fst c) <= lenN (snd c)) calls ->
   drive_seq s calls capss acc = Some (out, s1) ->
   drive_seq t calls capss' acc = Some (out', t1) ->
-  out = out' /\ leqU s1 t1.
+  out = out' /\ leqU s1 t1 /\ slicing_pre_full s1 /\ slicing_pre_full t1.
 
-(* Proved: everything except metadata calls on a quality-0/1 encoder.  (Missing there: the
-   metadata simulation over the quality-0/1 abstraction, which drops storage_size; it needs the
-   extra invariant input_pos = last_flush_pos so that meta_loop never calls encode_data.) *)
-Theorem C05_out_slicing_partial : forall calls s t capss capss' acc out out' s1 t1,
-  slicing_pre s -> slicing_pre t -> leqU s t ->
-  Forall (fun c => fst (fst c) = OpMeta -> snd (fst c) <= lenN (snd c)) calls ->
-  (fastcond s = false \/ Forall (fun c => fst (fst c) <> OpMeta) calls) ->
-  drive_seq s calls capss acc = Some (out, s1) ->
-  drive_seq t calls capss' acc = Some (out', t1) ->
-  out = out' /\ leqU s1 t1.
-Proof. exact out_slicing_partial. Qed.
-Print Assumptions C05_out_slicing_partial.
+Theorem C05_out_slicing_q : C05_out_slicing_q_stmt.
+Proof. exact out_slicing_full. Qed.
+Print Assumptions C05_out_slicing_q.
+
+(* the hypotheses hold for every encoder that has only seen set_parameter calls *)
+Theorem C05_slicing_pre_initial : forall s o,
+  fresh s -> initialized s = false -> input_pos s = last_flush_pos s -> magic s = false -> all_ok2 o ->
+  slicing_pre_full (upd_misc (ensure_initialized s) (last_emitted s) o).
+Proof. exact slicing_pre_initial. Qed.
+Print Assumptions C05_slicing_pre_initial.
 
 (* ---- non-vacuity: concrete states, different capacity schedules, by computation ---- *)
 Definition c05_ans1 : answer :=
@@ -241,8 +245,6 @@ Definition c05_ans2 : answer :=
 Definition c05_ex_main : st := upd_misc (ensure_initialized init_st) false [c05_ans1; c05_ans2].
 Definition c05_ex_calls : list (opk * N * list N) := [(OpProcess, 5, []); (OpFlush, 5, []); (OpFinish, 0, [])].
 
-Lemma c05_inv_oracle s le o : inv s -> inv (upd_misc s le o).
-Proof. intros [Hc [Hp [Ht Hl]]]. unfold inv, cursor_ok, pad_ok in *. fs. repeat split; assumption. Qed.
 
 (* process 5 bytes, 5 more and flush (5 bytes + 2 bytes of padding), finish (1 byte): ample
    buffers vs. buffers of 0, 1, 2 bytes *)
@@ -253,7 +255,7 @@ Example C05_out_slicing_main_example :
     /\ drive_seq c05_ex_main c05_ex_calls [[0]; [0; 2; 0; 1; 10]; [0; 1]] [] = Some ([11; 12; 13; 14; 15; 53; 0; 3], sf)
     /\ oracle sf = [] /\ sstate_ sf = SFinished.
 Proof.
-  split; [reflexivity|]. split; [apply c05_inv_oracle; exact inv_init|].
+  split; [reflexivity|]. split; [apply inv_upd_misc; exact inv_init|].
   split; [repeat constructor; vm_compute; reflexivity|]. split; [reflexivity|].
   eexists. split; [vm_compute; reflexivity|]. split; [vm_compute; reflexivity|]. split; reflexivity.
 Qed.
@@ -284,9 +286,9 @@ Example C05_out_slicing_fast_example :
 Proof.
   assert (Hq : inv c05_ex_q0).
   { pose proof (fresh_inv (snd (set_parameter init_st 1 0)) (fresh_set_parameter _ 1 0 fresh_init) eq_refl) as [H _]. exact H. }
-  split; [reflexivity|]. split; [apply c05_inv_oracle; exact Hq|].
+  split; [reflexivity|]. split; [apply inv_upd_misc; exact Hq|].
   split; [repeat constructor; vm_compute; reflexivity|]. split; [reflexivity|].
-  split; [reflexivity|]. split; [apply c05_inv_oracle; exact Hq|].
+  split; [reflexivity|]. split; [apply inv_upd_misc; exact Hq|].
   split; [repeat constructor; vm_compute; reflexivity|]. split; [split; vm_compute; reflexivity|].
   eexists. eexists. split; [vm_compute; reflexivity|]. split; [vm_compute; reflexivity|]. split; reflexivity.
 Qed.
@@ -314,10 +316,64 @@ Example C05_out_slicing_meta_example :
     /\ next_out sf = NoTiny 3 /\ next_out tf = NoTiny 16 /\ tiny sf <> tiny tf /\ leqB sf tf.
 Proof.
   split.
-  - split; [reflexivity|]. split; [apply c05_inv_oracle; exact inv_init|].
+  - split; [reflexivity|]. split; [apply inv_upd_misc; exact inv_init|].
     split; [repeat constructor; vm_compute; reflexivity|]. split; [reflexivity|].
     intros [H|H]; discriminate H.
   - eexists. eexists. split; [vm_compute; reflexivity|]. split; [vm_compute; reflexivity|].
     split; [reflexivity|]. split; [reflexivity|]. split; [intros H; discriminate H|].
     split; vm_compute; reflexivity.
+Qed.
+
+(* quality 0 with a metadata block between the data and the end of the stream *)
+Definition c05_ex_fmcalls : list (opk * N * list N) :=
+  [(OpProcess, 100, []); (OpMeta, 20, c05_ex_payload); (OpFinish, 0, [])].
+
+Example C05_out_slicing_q_example :
+  slicing_pre_full c05_ex_fs /\ slicing_pre_full c05_ex_ft /\ leqU c05_ex_fs c05_ex_ft
+  /\ exists sf tf,
+       drive_seq c05_ex_fs c05_ex_fmcalls [[1000]; [100]; [600]] []
+       = Some ([21; 22; 23; 24; 25; 26; 181; 38; 0] ++ c05_ex_payload ++ [3], sf)
+    /\ drive_seq c05_ex_ft c05_ex_fmcalls [[2; 0; 3; 700]; [0; 1; 0; 3; 0; 0; 2; 30]; [0; 1]] []
+       = Some ([21; 22; 23; 24; 25; 26; 181; 38; 0] ++ c05_ex_payload ++ [3], tf)
+    /\ next_out sf = NoTiny 3 /\ next_out tf = NoDyn 1.
+Proof.
+  assert (Hq : inv c05_ex_q0).
+  { pose proof (fresh_inv (snd (set_parameter init_st 1 0)) (fresh_set_parameter _ 1 0 fresh_init) eq_refl) as [H _]. exact H. }
+  assert (P : forall o, all_ok2 o -> slicing_pre_full (upd_misc c05_ex_q0 false o)).
+  { intros o Ho. split; [reflexivity|]. split; [apply inv_upd_misc; exact Hq|]. split; [exact Ho|].
+    split; [intros [H|H]; discriminate H|reflexivity]. }
+  split; [apply P; repeat constructor; vm_compute; reflexivity|].
+  split; [apply P; repeat constructor; vm_compute; reflexivity|].
+  split; [split; vm_compute; reflexivity|].
+  eexists. eexists. split; [vm_compute; reflexivity|]. split; [vm_compute; reflexivity|]. split; reflexivity.
+Qed.
+
+(* Why quiescent driving is needed: the same two PROCESS calls of one full block each, offered no
+   room.  Driven to quiescence, the second block is encoded with force_flush = false (both
+   recorded answers are consumed).  A driver that moves on as soon as the input is consumed
+   leaves the second block unencoded behind the pending bytes of the first, and the following
+   FLUSH asks the back end for that block with force_flush = true: a different request
+   (Mismatch 13 against the recorded one).  The schedule-independence of the request sequence
+   is a property of quiescent drivers only. *)
+Definition c05_ans_block2 : answer :=
+  {| a_fast := false; a_is_last := false; a_force_flush := false; a_result := true; a_inplace := false;
+     a_block := 0; a_out := [4; 5]; a_lb := 0; a_lbb := 0; a_ipos := 524288; a_lfp := 0; a_lpp := 524288;
+     a_hint := 262144; a_no := NoDyn 0 |}.
+Definition c05_ex_nq : st := upd_misc (ensure_initialized init_st) false [c05_ans_block; c05_ans_block2].
+
+Example C05_nonquiescent_requests_differ :
+  (exists sA, drive_seq c05_ex_nq [(OpProcess, 262144, []); (OpProcess, 262144, [])] [[0; 10]; [0; 10]] []
+              = Some ([1; 2; 3; 4; 5], sA) /\ oracle sA = [])
+  /\ exists s1 x1 s2 x2,
+       compress_stream c05_ex_nq OpProcess [] 262144 0 = Done (true, s1, x1) /\ in_off x1 = 262144
+    /\ compress_stream s1 OpProcess [] 262144 0 = Done (true, s2, x2) /\ in_off x2 = 262144
+    /\ oracle s2 = [c05_ans_block2]
+    /\ compress_stream s2 OpFlush [] 0 100 = Mismatch 13.
+Proof.
+  split.
+  - eexists. split; [vm_compute; reflexivity|reflexivity].
+  - eexists. eexists. eexists. eexists.
+    split; [vm_compute; reflexivity|]. split; [reflexivity|].
+    split; [vm_compute; reflexivity|]. split; [reflexivity|]. split; [reflexivity|].
+    vm_compute. reflexivity.
 Qed.
